@@ -333,6 +333,8 @@ pub struct Builder {
   pub branch: u32,
   pub used_names: std::collections::BTreeSet<u128>,
   pub coinbases: Vec<Transaction>,
+  /// steering only: the rune state after the blocks built so far
+  pub rune_hint: crate::model::runes::RefRunes,
 }
 
 fn amount(spec: &AmountSpec, balance: u128) -> u128 {
@@ -490,6 +492,11 @@ impl Builder {
       branch,
       used_names: Default::default(),
       coinbases: Vec::new(),
+      rune_hint: {
+        let mut m = crate::model::runes::RefRunes::new(network, 0);
+        m.apply_block(&genesis);
+        m
+      },
     }
   }
 
@@ -577,7 +584,7 @@ impl Builder {
     &mut self,
     spec: &RunestoneSpec,
     outputs_after: usize,
-    input_balances_hint: u128,
+    input_balances: &BTreeMap<RuneId, u128>,
     tx_index: u32,
   ) -> (Vec<u8>, Option<Rune>) {
     match spec {
@@ -681,9 +688,13 @@ impl Builder {
         let n_outputs = outputs_after as u32;
         let mut edict_list: Vec<Edict> = edicts
           .iter()
-          .map(|e| Edict {
-            id: rune_id(&e.rune, self),
-            amount: amount(&e.amount, input_balances_hint),
+          .map(|e| {
+            let id = rune_id(&e.rune, self);
+            (e, id)
+          })
+          .map(|(e, id)| Edict {
+            id,
+            amount: amount(&e.amount, input_balances.get(&id).copied().unwrap_or(1_000_000)),
             output: if e.split {
               n_outputs
             } else {
@@ -862,7 +873,15 @@ impl Builder {
         RunestoneSpec::RawPayload(_, position) => *position,
       };
       let n_after = outputs.len() + 1;
-      let (script, rune) = self.runestone_script(rs, n_after, 1_000_000, tx_index);
+      let mut input_balances: BTreeMap<RuneId, u128> = BTreeMap::new();
+      for op in &taken {
+        if let Some(b) = self.rune_hint.balances.get(op) {
+          for (id, amount) in b {
+            *input_balances.entry(*id).or_default() += amount;
+          }
+        }
+      }
+      let (script, rune) = self.runestone_script(rs, n_after, &input_balances, tx_index);
       etched_rune = rune;
       let at = usize::from(position) % (outputs.len() + 1);
       outputs.insert(
@@ -1151,7 +1170,7 @@ impl Builder {
       }
       if let Some(rs) = &spec.coinbase.runestone {
         let n_after = outputs.len() + 1;
-        let (script, _) = self.runestone_script(rs, n_after, 0, 0);
+        let (script, _) = self.runestone_script(rs, n_after, &BTreeMap::new(), 0);
         outputs.push(TxOut {
           value: Amount::from_sat(0),
           script_pubkey: ScriptBuf::from_bytes(script),
@@ -1200,8 +1219,22 @@ impl Builder {
     txdata.extend(txs);
     let block = make_block(self.tip, height, self.branch.wrapping_mul(1_000_003).wrapping_add(height), txdata);
     self.tip = block.block_hash();
+    self.rune_hint.apply_block(&block);
     self.blocks.push(block);
     self.stats.blocks += 1;
+    // refresh the steering hints from what really happened
+    self.etched = self
+      .rune_hint
+      .entries
+      .iter()
+      .map(|(id, e)| EtchedHint {
+        id: *id,
+        rune: Rune(e.rune),
+      })
+      .collect();
+    for (op, u) in self.live.iter_mut() {
+      u.runic = self.rune_hint.balances.contains_key(op);
+    }
   }
 
   pub fn add_empty_blocks(&mut self, n: u16) {
